@@ -1575,13 +1575,19 @@ async fn ids_with_frag(ds: &Dataset, filter: &str, use_index: bool) -> Result<BT
 /// with the index must equal the answer without it; a difference is attributed to the fragment
 /// (from `_rowaddr`) and classified by whether the index claims that fragment.
 /// `corrupt`: selftest hook, damages the indexed answer.
+/// `cause(fragments, column)`: the harness' knowledge of which committed ops of the history rewrote
+/// `column` in those fragments (narrows the violation signature).
+pub type CauseFn<'a> = &'a (dyn Fn(&BTreeSet<u32>, &str) -> String + Sync);
+
 pub async fn check_index_coverage(
     ds: &Dataset,
-    ctx: &str,
+    cause: CauseFn<'_>,
     corrupt: bool,
 ) -> Result<(Vec<Finding>, IndexCheckStats), String> {
     use futures::FutureExt;
-    match std::panic::AssertUnwindSafe(check_index_coverage_inner(ds, ctx, corrupt))
+    let ctx = cause(&BTreeSet::new(), "");
+    let ctx = ctx.as_str();
+    match std::panic::AssertUnwindSafe(check_index_coverage_inner(ds, cause, corrupt))
         .catch_unwind()
         .await
     {
@@ -1622,7 +1628,7 @@ thread_local! {
 
 async fn check_index_coverage_inner(
     ds: &Dataset,
-    ctx: &str,
+    cause: CauseFn<'_>,
     corrupt: bool,
 ) -> Result<(Vec<Finding>, IndexCheckStats), String> {
     let mut st = IndexCheckStats::default();
@@ -1715,11 +1721,13 @@ async fn check_index_coverage_inner(
             };
             findings.push(Finding {
                 signature: format!(
-                    "indexed-answer-differs-on-{}-fragment:{kind}:{ctx}",
-                    if covered { "covered" } else { "uncovered" }
+                    "indexed-answer-differs-on-{}-fragment:{}:{}",
+                    if covered { "covered" } else { "uncovered" },
+                    cause(&frags, col),
+                    if ds.manifest().uses_stable_row_ids() { "stable-row-ids" } else { "row-addresses" }
                 ),
                 what: format!(
-                    "index {name} on {col} (bitmap {bitmap:?}): `{p}` returns {:?} with the index and {:?} without (fragments {frags:?})",
+                    "{kind}: index {name} on {col} (bitmap {bitmap:?}): `{p}` returns {:?} with the index and {:?} without (fragments {frags:?})",
                     with.keys().collect::<Vec<_>>(),
                     without.keys().collect::<Vec<_>>()
                 ),
@@ -1730,4 +1738,66 @@ async fn check_index_coverage_inner(
         }
     }
     Ok((findings, st))
+}
+
+
+/// Which committed ops of the history rewrote `col` in place in the given (initial) fragments
+/// (with what happened to the index relative to it), or "fragment-created-after-setup" when the
+/// differing fragment was created after the setup table. Narrows violation signatures so that a
+/// known defect class cannot hide a different one:
+///  * `merge_col` — the column was rewritten in place (partial-schema merge_insert) and no
+///    optimize_indices committed afterwards: the index build itself claimed stale data;
+///  * `merge_col-then-optimize_indices` — an optimize_indices committed after the rewrite;
+///  * `data_replacement-of-indexed-column` — the index existed before the replacement committed;
+///  * `data_replacement` — the index build committed after / concurrently with the replacement.
+pub fn history_cause(out: &HistoryOutcome) -> impl Fn(&BTreeSet<u32>, &str) -> String + Sync + '_ {
+    move |frags: &BTreeSet<u32>, col: &str| {
+        let rpf = out.spec.rows_per_frag as i64;
+        // (commit version, op); setup op k commits version k + 2
+        let ok_ops: Vec<(u64, &Op)> = out
+            .spec
+            .pre_ops
+            .iter()
+            .enumerate()
+            .map(|(k, o)| (k as u64 + 2, o))
+            .chain(out.results.iter().filter_map(|r| match &r.result {
+                Ok(Some(v)) => Some((*v, &r.op)),
+                _ => None,
+            }))
+            .collect();
+        if frags.is_empty() {
+            let mut k: Vec<&str> = ok_ops.iter().map(|o| o.1.kind()).collect();
+            k.sort();
+            k.dedup();
+            return k.join("+");
+        }
+        let mut causes: BTreeSet<String> = BTreeSet::new();
+        for f in frags {
+            if (*f as usize) >= out.spec.frags {
+                causes.insert("fragment-created-after-setup".into());
+                continue;
+            }
+            let lo = *f as i64 * rpf;
+            let hi = lo + rpf;
+            for (v, o) in &ok_ops {
+                match o {
+                    Op::ReplaceV { frag, .. } if *frag == *f as u64 && col == "v" => {
+                        let index_before = ok_ops
+                            .iter()
+                            .any(|(vi, oi)| vi < v && matches!(oi, Op::CreateIndex { col: c, .. } if *c == col));
+                        causes.insert(if index_before { "data_replacement-of-indexed-column".into() } else { "data_replacement".into() });
+                    }
+                    Op::MergeCol { ids, col: c, .. } if *c == col && ids.iter().any(|i| *i >= lo && *i < hi) => {
+                        let optimized_after = ok_ops.iter().any(|(vi, oi)| vi > v && matches!(oi, Op::OptimizeIndices));
+                        causes.insert(if optimized_after { "merge_col-then-optimize_indices".into() } else { "merge_col".into() });
+                    }
+                    _ => {}
+                }
+            }
+        }
+        if causes.is_empty() {
+            causes.insert("no-in-place-rewrite-known".into());
+        }
+        causes.into_iter().collect::<Vec<_>>().join("+")
+    }
 }
